@@ -98,7 +98,9 @@ func genC03(r *rng, tier string, emit func(string)) {
 	}
 	zero := big.NewInt(0)
 	P := func() [2]*big.Int { return pts[r.intn(len(pts))] }
-	neg := func(p [2]*big.Int) [2]*big.Int { return [2]*big.Int{p[0], new(big.Int).Mod(new(big.Int).Neg(p[1]), sm2P)} }
+	neg := func(p [2]*big.Int) [2]*big.Int {
+		return [2]*big.Int{p[0], new(big.Int).Mod(new(big.Int).Neg(p[1]), sm2P)}
+	}
 	inf := [2]*big.Int{zero, zero}
 	// the known hard scalars first
 	for _, d := range []int64{6, 2, 10, 14, 12, 24, 48, 96} {
@@ -154,6 +156,26 @@ func genC03(r *rng, tier string, emit func(string)) {
 	}
 	emit(fmt.Sprintf("ecadd - - - -"))
 	emit(fmt.Sprintf("ecdbl - -"))
+	// the two finite points with a zero coordinate, (0, ±sqrt(b)): not the point at infinity
+	{
+		cp := sm2.P256Sm2().Params()
+		y0 := new(big.Int).ModSqrt(cp.B, cp.P)
+		if y0 != nil {
+			zero := new(big.Int)
+			for _, y := range []*big.Int{y0, new(big.Int).Sub(cp.P, y0)} {
+				q := P()
+				emit(fmt.Sprintf("ecdbl - %s", bhex(y)))
+				emit(fmt.Sprintf("ecadd - %s - %s", bhex(y), bhex(y)))
+				emit(fmt.Sprintf("ecadd - %s %s %s", bhex(y), bhex(q[0]), bhex(q[1])))
+				emit(fmt.Sprintf("ecadd %s %s - %s", bhex(q[0]), bhex(q[1]), bhex(y)))
+				emit(fmt.Sprintf("ecadd - %s - -", bhex(y)))
+				emit(fmt.Sprintf("ecadd - %s - %s", bhex(y), bhex(new(big.Int).Sub(cp.P, y))))
+				emit(fmt.Sprintf("econ - %s", bhex(y)))
+				emit(fmt.Sprintf("ecsmul - %s %s", bhex(y), hx(r.biasedScalar())))
+				_ = zero
+			}
+		}
+	}
 	for i := 0; i < n/4; i++ {
 		p := P()
 		emit(fmt.Sprintf("ecdbl %s %s", bhex(p[0]), bhex(p[1])))
